@@ -32,7 +32,7 @@ CFG = {
              "0-2 concurrent writers, 0-3 clock advances of 0.5 s..11 min (favoured while the request is in progress), optionally one injected EIO on the k-th link or mkdir below the snapshots directory; afterwards "
              "the request and the writers finish gate by gate in a fixed fair order, 0-2 more batches are written and flushed, and the copy is restored by the backup tool or by file copy. Non-trivial = a snapshot was "
              "reported successful, restored and compared, or an injected fault fired; distinct = canonical event-log digests"),
-    "expected_probes": ["reach.snapshot_ok", "reach.restored_and_compared", "reach.restored_nonempty", "reach.snapshot_raced_writer", "reach.snapshot_raced_maintenance",
+    "expected_probes": ["fault.stale_manifest_tmp_in_shard_root", "reach.snapshot_ok", "reach.restored_and_compared", "reach.restored_nonempty", "reach.snapshot_raced_writer", "reach.snapshot_raced_maintenance",
                         "reach.closed_segment_in_snapshot", "reach.closed_segments_stayed_closed", "reach.restore_via_backup_tool", "reach.restore_via_copy",
                         "reach.post_snapshot_batches_excluded", "reach.snapshot_older_than_acknowledged_state", "reach.flush_during_snapshot_request",
                         "reach.advance_while_request_links_a_table", "fault.link_eio", "fault.mkdir_eio", "reach.failed_snapshot_reported"],
